@@ -40,4 +40,9 @@ def run(ctx):
     evnm2.check_key_type(ctx, F)
     nd = evnm2.check_displaced_removed(ctx, F)
     ctx.floor("E-VNM.displace.nonempty", "guarded removals of displaced names", nd, 1)
+    ctx.explain("E-VNM.addvars: add_vars(k) and the add_named_vars_from_map fast path of both managers are interpreted on a model "
+                "manager: level table, var/level map and name map grow by k (resp. to the map's length) and the returned range is "
+                "exactly the new variables' numbers.")
+    nav = evnm2.check_add_vars(ctx, F)
+    ctx.floor("E-VNM.addvars", "interpreted add_vars situations", nav, 10)
     ctx.not_decided = "the bijection over call sequences as behaviour; that adding variables preserves functions"
